@@ -32,11 +32,15 @@ DT = ("float64", "complex128", "float32", "complex64", "int64")
 
 
 def _arr(spec):
+    lay = spec.get("layout", "c")
     if spec["dtype"] == "int64":
         s = dict(spec)
         s["dtype"] = "float64"
-        return A.arr(s).astype(np.int64)
-    return A.arr(spec)
+        return A.relayout(A.arr(s).astype(np.int64), lay)
+    return A.relayout(A.arr(spec), lay)
+
+
+LAY = st.sampled_from(A.LAYOUTS)
 
 
 def _eq(r, key, got, want, extra=""):
@@ -78,7 +82,7 @@ def st_resize(draw):
         ishift = [draw(st.integers(0, i - 1)) for i in ish]
         oshift = [draw(st.integers(0, o - 1)) for o in osh]
     dt = draw(st.sampled_from(DT))
-    return {"f": "resize", "x": {"k": "lab", "shape": ish, "dtype": dt}, "oshape": osh,
+    return {"f": "resize", "x": {"k": "lab", "shape": ish, "dtype": dt, "layout": draw(LAY)}, "oshape": osh,
             "ishift": ishift, "oshift": oshift, "as_tuple": draw(st.booleans())}
 
 
@@ -140,7 +144,7 @@ def check_resize(case):
 def st_flip(draw):
     sh = draw(A.shapes(1, 4, 1, 5, 200))
     axes = draw(A.axes_subset(len(sh)))
-    return {"f": "flip", "x": {"k": "lab", "shape": sh, "dtype": draw(st.sampled_from(DT))}, "axes": axes}
+    return {"f": "flip", "x": {"k": "lab", "shape": sh, "dtype": draw(st.sampled_from(DT)), "layout": draw(LAY)}, "axes": axes}
 
 
 def check_flip(case):
@@ -182,7 +186,7 @@ def st_circshift(draw):
     axes = draw(A.axes_subset(len(sh)))
     k = len(sh) if axes is None else len(axes)
     shifts = [draw(st.integers(-12, 12)) for _ in range(k)]
-    return {"f": "circshift", "x": {"k": "lab", "shape": sh, "dtype": draw(st.sampled_from(DT))},
+    return {"f": "circshift", "x": {"k": "lab", "shape": sh, "dtype": draw(st.sampled_from(DT)), "layout": draw(LAY)},
             "axes": axes, "shifts": shifts}
 
 
@@ -237,7 +241,7 @@ def st_downsample(draw):
     shift = None
     if draw(st.booleans()):
         shift = [draw(st.integers(0, min(f, n) - 1)) for f, n in zip(factors, sh)]
-    return {"f": "downsample", "x": {"k": "lab", "shape": sh, "dtype": draw(st.sampled_from(DT))},
+    return {"f": "downsample", "x": {"k": "lab", "shape": sh, "dtype": draw(st.sampled_from(DT)), "layout": draw(LAY)},
             "factors": factors, "shift": shift}
 
 
@@ -316,7 +320,7 @@ def st_blocks(draw):
     B = [draw(st.integers(1, n)) for n in N]
     S = [draw(st.integers(1, b + 2)) for b in B]
     dt = draw(st.sampled_from(("float64", "complex128", "float32", "complex64")))
-    return {"f": "blocks", "batch": batch, "N": N, "B": B, "S": S, "dtype": dt, "seed": draw(A.seeds)}
+    return {"f": "blocks", "batch": batch, "N": N, "B": B, "S": S, "dtype": dt, "seed": draw(A.seeds), "layout": draw(LAY)}
 
 
 def check_blocks(case):
@@ -324,7 +328,7 @@ def check_blocks(case):
     r = R()
     batch, N, B, S, dt = case["batch"], case["N"], case["B"], case["S"], case["dtype"]
     D = len(N)
-    x = A.arr({"k": "lab", "shape": batch + N, "dtype": dt})
+    x = A.relayout(A.arr({"k": "lab", "shape": batch + N, "dtype": dt}), case.get("layout", "c"))
     nblk = [(n - b + s) // s for n, b, s in zip(N, B, S)]
     want = np.zeros(batch + nblk + B, x.dtype)
     for bi in np.ndindex(*batch):
@@ -345,7 +349,8 @@ def check_blocks(case):
         if ok:
             _eq(r, "ArrayToBlocks.apply", got, want)
     # blocks_to_array: random small integers, accumulation is exact
-    blk = A.arr({"k": "ri", "shape": batch + nblk + B, "dtype": dt, "seed": case["seed"], "lo": -9, "hi": 9})
+    blk = A.relayout(A.arr({"k": "ri", "shape": batch + nblk + B, "dtype": dt, "seed": case["seed"], "lo": -9, "hi": 9}),
+                     case.get("layout", "c"))
     acc = np.zeros(batch + N, blk.dtype)
     for bi in np.ndindex(*batch):
         for nb in np.ndindex(*nblk):
